@@ -208,6 +208,16 @@ func uint64Alphabet() []uint64 {
 		set[i], set[^i] = true, true
 	}
 
+	// solved members: boundary quotient digits, and low limbs that produce them in the first reduction round
+	wit := alpha.ReductionWitnesses(ref.N)
+	for _, l := range wit.Digits {
+		set[l] = true
+	}
+
+	for _, l := range wit.LowLimbs {
+		set[l] = true
+	}
+
 	// unstructured values: four per fixed 256-bit integer
 	for _, v := range alpha.Fixed(128, "uint64") {
 		for _, l := range ref.Limbs(v) {
@@ -254,10 +264,32 @@ func C06(r *ev.Report) {
 		pairVals = alpha.Thin(vals, 400) // seam under another property: lighter pair product, same unary sweeps
 	}
 
+	wit := alpha.ReductionWitnesses(ref.N)
+	vals = alpha.WithWitnesses(vals, ref.N)
+
 	r.Rule("Add/Subtract/Multiply on all ordered pairs of the value alphabet V_n (canonical- and Montgomery-structured limb products, closed under negation and +-1) in the aliasing shapes distinct/same; Square, Invert on all of V_n; Pow on a slice of V_n x exponent alphabet incl. nil and s.Pow(s); SetUInt64 on a uint64 alphabet; constants and nil operands from every prior receiver value; non-trivial = both operands >= 2^64")
 	r.Bound("values", len(vals))
 	r.Bound("pair_values", len(pairVals))
+	r.Bound("solved_quotient_pairs", len(wit.Pairs))
+	r.Bound("solved_from_montgomery", len(wit.FromMont))
+	r.Bound("solved_to_montgomery", len(wit.ToMont))
 	r.States.Add(int64(len(vals)))
+
+	r.ParFor(len(wit.Pairs), func(_, i int) {
+		a := alpha.Val{V: wit.Pairs[i][0], Raw: ref.Mont(wit.Pairs[i][0], ref.N)}
+		b := alpha.Val{V: wit.Pairs[i][1], Raw: ref.Mont(wit.Pairs[i][1], ref.N)}
+
+		for opi := range c06Bin {
+			for _, ab := range [][2]alpha.Val{{a, b}, {b, a}} {
+				r.Transitions.Add(1)
+				r.Evals.Add(1)
+
+				if key, detail := c06BinCase(opi, ab[0], ab[1], "distinct"); key != "" {
+					r.Violation(key, detail, Case{"op": c06Bin[opi].name, "a": hx(ab[0].V), "b": hx(ab[1].V), "shape": "distinct"})
+				}
+			}
+		}
+	})
 
 	r.ParFor(len(pairVals), func(_, i int) {
 		a := pairVals[i]
